@@ -14,9 +14,11 @@ import (
 	"log/slog"
 	"math/rand"
 	"net"
+	"net/netip"
 	"strconv"
 	"strings"
 	"sync"
+	"sync/atomic"
 	"time"
 
 	"github.com/ethereum/go-ethereum/p2p/enode"
@@ -333,6 +335,59 @@ func runTransfer(o *Out, r *rand.Rand, thorough bool, args []string) {
 			a.stop()
 			b.stop()
 		}
+	}
+	// a transfer that stalls (the serving node's datagrams stop arriving after the first twenty full ones) and an asker that is
+	// shut down two seconds later, while its read is under way: the look-up ends with an error - or with the stored bytes -,
+	// never with a part of them
+	for vi, vs := range [][]uint8{{0}, {0, 1}} {
+		mn := newMemNet()
+		a := startNode(mn, r, nodeOpts{ip: net.IP{34, 1, 9, byte(1 + vi)}, port: 9330, versions: vs, utpLimit: 50})
+		b := startNode(mn, r, nodeOpts{ip: net.IP{34, 2, 9, byte(1 + vi)}, port: 9331, versions: vs, utpLimit: 50})
+		a.p.AddEnr(b.p.Self())
+		b.p.AddEnr(a.p.Self())
+		_, _ = a.p.VerifPing(b.p.Self())
+		key := []byte(fmt.Sprintf("stall-%d", vi))
+		idh := sha256.Sum256(key)
+		val := genBytes(300000, 40+vi)
+		_ = b.store.Put(key, idh[:], val)
+		bAddr := netip.AddrPortFrom(netip.AddrFrom4([4]byte{34, 2, 9, byte(1 + vi)}), 9331)
+		var big int32
+		mn.mu.Lock()
+		mn.drop = func(from, _ netip.AddrPort, pkt []byte) bool {
+			if from != bAddr {
+				return false
+			}
+			if len(pkt) > 900 {
+				return atomic.AddInt32(&big, 1) > 20
+			}
+			return atomic.LoadInt32(&big) > 20
+		}
+		mn.mu.Unlock()
+		type res struct {
+			data interface{}
+			err  error
+		}
+		ch := make(chan res, 1)
+		go func() {
+			_, d, err := a.p.VerifFindContent(b.p.Self(), key)
+			ch <- res{d, err}
+		}()
+		time.Sleep(2 * time.Second)
+		a.stop()
+		out := "timeout"
+		select {
+		case x := <-ch:
+			if x.err != nil {
+				out = "error"
+			} else if got, ok := x.data.([]byte); ok {
+				out = fmt.Sprintf("flag=0 same=%d maxdgram_ok=1", b2i(bytes.Equal(got, val)))
+			} else {
+				out = "flag=0 notbytes"
+			}
+		case <-time.After(70 * time.Second):
+		}
+		o.Case(fmt.Sprintf("transfer size=%d va=%s vb=%s stalled=1", len(val), csv(vs), csv(vs)), out)
+		b.stop()
 	}
 	// the serving side knows the asker by an OLDER record that advertises other versions than the asker does now (it was
 	// upgraded or rolled back and re-published its record): framing follows the record of the live session, not the table's
